@@ -1764,7 +1764,7 @@ func intReadingFailed(atoms []Atom) bool {
 
 func numericReadingIgnored(atoms []Atom, argKey string) string {
 	intOK, intFail, floatOK, nonFinite := false, false, false, false
-	for _, a := range atoms {
+	for _, a := range withFiniteFacts(atoms) {
 		switch {
 		case a.Kind == "nil" && strings.HasSuffix(a.Subj, "#1") && (strings.Contains(a.Subj, "strconv.Atoi(") || strings.Contains(a.Subj, "strconv.ParseInt(")):
 			if a.Pos {
